@@ -61,7 +61,7 @@ def run(ctx):
     scens = [g.single(throws=0.1, cancel=0.2, nested=0.4) for _ in range(60 if thorough else 8)]
     r2 = tc.run_scenarios(ctx, exe, scens, WHAT, n, ctx.seed + 1, 'random programs')
     rz = RESIZE + [g.single(throws=0.0, cancel=0.1, nested=0.0, pools=(1, 2, 3), two=1.0, resize=True) for _ in range(20 if thorough else 2)]
-    r3 = tc.run_scenarios(ctx, exe, rz, WHAT, (10 if thorough else 4), ctx.seed + 2, 'ring fast path racing resize')
+    r3 = tc.run_scenarios(ctx, exe, rz, WHAT, (10 if thorough else 2), ctx.seed + 2, 'ring fast path racing resize')
     ctx.cov['executions'] = {'fixed': r['executions'], 'random': r2['executions'], 'resize': r3['executions']}
     ctx.sample({'programs': scens[:4] + RESIZE[:2]})
     if r3['traces']:
